@@ -173,4 +173,28 @@ C04Fails(c) ==
              \/ (DevP = "Dev_NegationsTradedForGates" /\
                  Cardinality(NonInputSet(res)) <= Cardinality(NonInputSet(orig)))>>
        >>)
+
+(***************************************************************************)
+(* Drift for C04: the truth tables with don't-cares that the function       *)
+(* derives for its cones (observed from outside, with the working circuit   *)
+(* they were derived from).  Entry k of a table is the cone output when     *)
+(* cone input q (1-based) carries bit n-q of k; it must be a value, and the *)
+(* right one, on every leaf pattern that some input assignment of the       *)
+(* circuit produces - exactly what makes a replacement synthesised from     *)
+(* the table function-preserving.  Unreachable patterns are free.           *)
+(***************************************************************************)
+ConeTableOK(e) ==
+  LET ce == e.cur  n == Len(e.ins) IN
+  IF ~(WF1(ce) /\ WF5(ce)) \/ ~(SeqSet(e.ins) \cup SeqSet(e.outs) \subseteq Labels(ce)) \/ n > 6 THEN TRUE
+  ELSE LET tt == GateTT(ce)
+           all == AllRows(Len(ce.i))
+           val(k, q) == (k \div (2 ^ (n - q))) % 2 = 1
+           R(k) == {r \in all : \A q \in 1 .. n : (r \in tt[e.ins[q]]) = val(k, q)}
+       IN \A j \in DOMAIN e.outs : Len(e.table[j]) = 2 ^ n /\
+            \A k \in 0 .. (2 ^ n - 1) :
+               R(k) = {} \/ (e.table[j][k + 1] # 2 /\ \A r \in R(k) : (r \in tt[e.outs[j]]) = (e.table[j][k + 1] = 1))
+C04ConeDrift(c) ==
+  IF ~Has(c, "cones") THEN {}
+  ELSE IF \A j \in DOMAIN c.cones : ConeTableOK(c.cones[j]) THEN {}
+       ELSE {"cone-table-disagrees-with-the-circuit-on-a-reachable-leaf-pattern"}
 =============================================================================
